@@ -31,13 +31,14 @@ struct St {
     int_window_points: u64,
     once_runs: u64,
     szx_positions: u64,
+    host_pokes: u64,
     sample: Vec<J>,
 }
 
 /// A: single-stepped conservation across a frame boundary
 fn conservation(ctx: &Ctx, rng: &mut Rng, is128: bool, st: &mut St, case: u64) {
     let mut m = Machine::new(Cfg::of(is128));
-    let mut md = Model { is128, bank: 0, locked_cases: 0 };
+    let mut md = Model { is128, bank: 0, locked_cases: 0, ext: None };
     if is128 {
         let v = rng.below(8) as u8 | (rng.below(2) as u8) << 4;
         m.out(0x7FFD, v);
@@ -77,6 +78,26 @@ fn conservation(ctx: &Ctx, rng: &mut Rng, is128: bool, st: &mut St, case: u64) {
     rf.iff1 = rng.bool();
     rf.iff2 = rf.iff1;
     m.set_regs(&rf);
+    // host pokes while the emulation is stopped anywhere in the picture area (where a CPU access to
+    // the same address would be held up by the ULA) are not CPU time either
+    if rng.chance(1, 4) {
+        let (t0, line) = if is128 { (14362usize, 228usize) } else { (14336, 224) };
+        for _ in 0..4 {
+            let t = t0 + rng.below(192) as usize * line + rng.below(128) as usize;
+            m.set_clock(t);
+            let a = *rng.pick(&[0x5C00u16, 0x4000, 0x7FFE, 0x5800, 0xC000, 0xFFF0]);
+            m.poke_bytes(a, &[rng.u8(), rng.u8()]);
+            st.host_pokes += 1;
+            if m.clock() != t {
+                ctx.violation(
+                    "conservation:host-poke-takes-time",
+                    &format!("execute_poke of 2 bytes at {:04x} moved the frame clock from {} to {} ({}K)", a, t, m.clock(), if is128 { 128 } else { 48 }),
+                    jobj! {"monitor"=>"A","case"=>case,"is128"=>is128,"address"=>a,"clock_before"=>t,"clock_after"=>m.clock()},
+                );
+                return;
+            }
+        }
+    }
     let mut clock0 = fr - 1 - rng.below(120) as usize;
     if rng.chance(1, 5) {
         // the frame position comes from an SZX snapshot (dwCyclesStart) loaded into the machine
@@ -102,6 +123,22 @@ fn conservation(ctx: &Ctx, rng: &mut Rng, is128: bool, st: &mut St, case: u64) {
     let mut prev_clock = clock0;
     let mut skip_next = false;
     for step in 0..(20 + rng.below(60)) {
+        // the host may poke memory while the emulation is stopped (here: between two instructions,
+        // anywhere in the frame): that is not CPU time
+        if rng.chance(1, 10) {
+            let before = m.clock();
+            let a = *rng.pick(&[0x5C00u16, 0x4000, 0x7FFF, 0x9000, 0xC000, 0xFFFF, 0x5800]);
+            m.poke_bytes(a.wrapping_sub(1), &[rng.u8(), rng.u8(), rng.u8()]);
+            st.host_pokes += 1;
+            if m.clock() != before {
+                ctx.violation(
+                    "conservation:host-poke-takes-time",
+                    &format!("execute_poke of 3 bytes at {:04x} moved the frame clock from {} to {} ({}K)", a.wrapping_sub(1), before, m.clock(), if is128 { 128 } else { 48 }),
+                    jobj! {"monitor"=>"A","case"=>case,"is128"=>is128,"address"=>a.wrapping_sub(1),"clock_before"=>before,"clock_after"=>m.clock()},
+                );
+                return;
+            }
+        }
         let t = m.clock();
         let cur = m.regs();
         let skip = m.cpu().skip_interrupt;
@@ -455,6 +492,7 @@ pub fn run(ctx: &Ctx) -> Evidence {
         ev.add_num("int_window_points", r.int_window_points);
         ev.add_num("once_per_frame_runs", r.once_runs);
         ev.add_num("conservation_cases_positioned_by_szx_load", r.szx_positions);
+        ev.add_num("host_pokes_between_instructions", r.host_pokes);
         over.extend(r.overruns);
         for s in r.sample {
             ev.sample(s);
